@@ -21,13 +21,18 @@ Theorem C05_project_idempotent : forall x bs, wf_box bs -> length x = length bs 
   @project R NumR (@project R NumR x bs) bs = @project R NumR x bs.
 Proof. exact project_idempotent. Qed.
 
-(* project_onto_tr: in the box for EVERY value t the root finder may return; returned unchanged and inside the radius when
-   the plain projection is already inside; inside the radius whenever the residual f(t) <= 0 *)
-Theorem C05_project_tr_in_both : forall x xk bs D t, wf_box bs -> length x = length bs -> length xk = length bs ->
+(* project_onto_tr: in the box for EVERY value t the root finder may return, every centre and every radius *)
+Theorem C05_project_tr_in_box : forall x xk bs D t, wf_box bs -> length x = length bs -> length xk = length bs ->
+  in_box bs (@project_onto_tr R NumR x xk bs D t).
+Proof. exact project_onto_tr_in_box. Qed.
+(* ... and, since the repair of finding F15 (the point found by the root finder is pulled back toward xk when it overshoots), ALSO
+   within the radius for EVERY value t the root finder may return -- no hypothesis on brentq's answer is left; the centre must be
+   feasible and the radius non-negative.  Returned unchanged (the plain projection) when that is already inside. *)
+Theorem C05_project_tr_in_both : forall x xk bs D t, wf_box bs -> length x = length bs -> in_box bs xk -> 0 <= D ->
   let p := @project_onto_tr R NumR x xk bs D t in
   in_box bs p /\
-  (@needs_root_find R NumR x xk bs D = false -> p = @project R NumR x bs /\ rsub p xk ⋅ rsub p xk <= D * D) /\
-  (@tr_residual R NumR x xk bs D t <= 0 -> rsub p xk ⋅ rsub p xk <= D * D).
+  (@needs_root_find R NumR x xk bs D = false -> p = @project R NumR x bs) /\
+  rsub p xk ⋅ rsub p xk <= D * D.
 Proof. exact project_onto_tr_props. Qed.
 
 (* feasibility mechanism of the SPG iterations: every update is xNew + alpha (P - xNew) with P feasible and 0 <= alpha <= 1 *)
@@ -85,8 +90,9 @@ Theorem C05_flag_honest_complete_model : forall (value : list R -> R) (grad : li
     (tr = [FOut (EConvergedInit xr)] \/ exists tr', tr = tr' ++ [FOut (EConverged xr)]).
 Proof. exact full_minimize_flag. Qed.
 (* NOT PROVED: the same over binary64 (y = x + z is a rounded addition: a bound can be exceeded by an ulp; L2 allows 4 ulp and
-   reports the worst excess); the trust-region half of "feasible" (|x+z - x| <= trSize) for the SPG iterates: it needs the
-   root finder's answer to satisfy f(t) <= 0 (C05_project_tr_in_both) AND convexity of the ball, not attempted.
+   reports the worst excess); the trust-region half of "feasible" (|x+z - x| <= trSize) for the SPG iterates: project_onto_tr
+   itself is inside the radius for every root-finder answer since the repair of F15 (C05_project_tr_in_both); the remaining step
+   (convexity of the ball along z += alpha*s, and the Cauchy point's cut-back) is not attempted.
    Runs that end in the documented RuntimeError of the Cauchy search or outside the model's range (max_spg_iters = 0:
    NameError in python; cauchy_point_max_line_search_iters = 0) have result None: the theorem then only speaks about the
    points formed before. *)
